@@ -258,6 +258,31 @@ def gen_case(rng, small=False):
     return case
 
 
+def gen_case_decimal(rng):
+    """lattices with decimal steps (0.1, 0.3, ...): node coordinates are rounded doubles, coordinate sums may land one ulp
+    outside the range; stencils inside, touching the faces exactly; no ties in round() or in the closest-node search"""
+    N = [rng.choice([5, 6, 7, 8, 9]), rng.choice([4, 5, 6, 7]), rng.choice([3, 4, 5])]
+    step = [rng.choice([0.1, 0.3, 0.7, 0.2, 1.1]) for _ in range(3)]
+    lo = [rng.choice([-0.3, 0.0, 0.1, -1.7, 2.3]) for _ in range(3)]
+    ext = []
+    for i in range(3):
+        ext += [lo[i], lo[i] + (N[i] - 1) * step[i]]
+    sigma = rng.choice([0.1, 0.25, 0.3, 0.7])
+    m = [min(rng.choice([0, 1, 1, 2]), (N[i] - 1) // 2) for i in range(3)]
+    nsig = [(m[i] + rng.choice([-0.3, 0.0, 0.3])) * step[i] / sigma if m[i] > 0 else 0.2 * step[i] / sigma for i in range(3)]
+    parts = []
+    for _ in range(rng.choice([1, 1, 2, 3])):
+        pos = []
+        for i in range(3):
+            node = rng.choice([m[i], N[i] - 1 - m[i], rng.randint(m[i], N[i] - 1 - m[i])])
+            pos.append(lo[i] + (node + rng.choice([0, 0.2, -0.3])) * step[i])
+        parts.append({"x": pos[0], "y": pos[1], "z": pos[2], "px": rng.choice([0.5, 0.0, -1.0]), "py": 0.25, "pz": 1.0,
+                      "mass": rng.choice([0.0, 1.0, 0.138]), "E": rng.choice([0.5, 2.0, 3.25]), "charge": rng.choice([-1, 1, 2]),
+                      "baryon_number": rng.choice([-1, 0, 1]), "strangeness": rng.choice([-2, 0, 1])})
+    return {"ext": ext, "n": N, "nsig": nsig, "sigma": sigma, "quantity": rng.choice(QUANT),
+            "kernel": rng.choice(["gaussian", "covariant"]), "add": False, "particles": parts}
+
+
 # ----------------------------------------------------------------------------- Coq side
 PRELUDE = """From Coq Require Import List ZArith QArith Qabs Qminmax Bool String.
 From SX Require Import Lib.KRing Lib.Py Lib.QCheck Gen.GenLattice Model.Lattice Model.Smear.
@@ -430,7 +455,7 @@ def correspondence(ctx, model_ok=True):
             cases.append(json.load(open(os.path.join(corpus, fn)))["case"])
     cases += [json.loads(json.dumps(c)) for c in FIXED]
     while len(cases) < ncases:
-        cases.append(gen_case(ctx.rng))
+        cases.append(gen_case(ctx.rng) if len(cases) % 5 else gen_case_decimal(ctx.rng))
     gots = [run_impl(c) for c in cases]
     geo = []
     dist = {"quantity": {}, "kernel": {}, "add": 0, "particles": {}, "supports": {"inside": 0, "clipped": 0, "mixed": 0},
@@ -458,7 +483,8 @@ def correspondence(ctx, model_ok=True):
                    "coordinates are exact), 1-4 particles on nodes, half-way between nodes, off nodes and outside the lattice, "
                    "sigma and n_sigma giving stencil half-widths 0-3 per axis (incl. the .5 ties of round()), both kernels, "
                    "massless and massive particles, the five quantities (negative charges), add on/off with and without "
-                   "prior content, plus rejected inputs (unknown quantity/kernel, NaN position, NaN quantity). For every "
+                   "prior content, every fifth case a lattice with decimal steps (0.1, 0.3, 0.7, ...) whose stencils touch the "
+                   "faces exactly (float coordinate sums land on nodes only up to rounding), plus rejected inputs (unknown quantity/kernel, NaN position, NaN quantity). For every "
                    "case the pdf values the implementation obtained are recorded as exact rationals and given to the model; "
                    "Model/Smear.v is run by vm_compute on the whole list AND on every particle alone, and every node of "
                    "the resulting grids is compared with the real grid (exact or within 1e-12); additionally the "
@@ -493,7 +519,9 @@ def correspondence(ctx, model_ok=True):
     out["traces_validated_against_impl"] = sum(1 for c in codes if c % 10 <= 1)
     for c, g, code in zip(cases, gots, codes):
         if code % 10 >= 2:
-            out["failures"].append(Failure(c, f"model and implementation disagree (code {code}) on the deposited grid"))
+            out["failures"].append(Failure(shrink(c) if oracle(c) else c,
+                                           f"model and implementation disagree (code {code}) on the deposited grid",
+                                           key="C16-grid-mismatch"))
         elif code >= 10:
             why = []
             if (code // 10) % 2 == 1:
@@ -523,7 +551,7 @@ def search(ctx):
     for i in range(budget):
         if found:
             break
-        c = gen_case(ctx.rng, small=True)
+        c = gen_case(ctx.rng, small=True) if i % 3 else gen_case_decimal(ctx.rng)
         n += 1
         try:
             msg = oracle(c)
